@@ -483,14 +483,25 @@ def tail_expr_start(s, body_open, body_close):
     return last
 
 
-def splice_loops(s, body_open, body_close, loops_spec, item, places=None):
+def splice_loops(s, body_open, body_close, loops_spec, item, places=None, frame=None):
     """Return the body text [body_open, body_close] with loop headers annotated and
-    proof scaffolding placed at function start/end and loop body start/end."""
+    proof scaffolding placed at function start/end and loop body start/end.
+    frame=<expr>: every loop of the function keeps <expr> unchanged (`let ghost verif_frameN = <expr>;` before the
+    loop, `invariant <expr> == verif_frameN` in its header)."""
     places = places or {}
-    if not loops_spec and not places:
+    if not loops_spec and not places and not frame:
         return s.text[body_open:body_close + 1]
     loops = s.loops(body_open, body_close)
     edits = []  # (index, order, text to insert)
+    if frame:
+        for n_, lp_ in enumerate(loops, 1):
+            if loops_spec and n_ in loops_spec:
+                continue
+            edits.append((lp_["kw"], 0, "let ghost verif_frame%d = %s;\n" % (n_, frame)))
+            edits.append((lp_["open"], 0, "\n    invariant %s == verif_frame%d,\n" % (frame, n_)))
+            inv_ = norm_ws("%s == verif_frame%d" % (frame, n_))
+            item.clauses["invariant"].append(inv_)
+            item.carrying.append(inv_)
 
     def get_loop(n):
         if n < 1 or n > len(loops):
@@ -569,7 +580,7 @@ def render_fn(s, loc, contract, opts, item, indent=""):
         body = "{ unimplemented!() }"
         pre = "#[verifier::external_body]\n"
     else:
-        body = splice_loops(s, loc["body_open"], loc["body_close"], opts.get("loops"), item, opts.get("places"))
+        body = splice_loops(s, loc["body_open"], loc["body_close"], opts.get("loops"), item, opts.get("places"), opts.get("loopframe"))
         body = apply_replacements(body, opts.get("repls", []), item)
         body = apply_befores(body, opts.get("befores", []), item)
         for a_, b_, note_ in opts.get("rewrites_all", []):
@@ -582,6 +593,10 @@ def render_fn(s, loc, contract, opts, item, indent=""):
             if n_ == 0:
                 raise AnchorLost("%s: pattern %r not found" % (item.ident, rx_))
             item.rewrites.append({"old": "regex " + rx_, "new": rep_, "note": "std-equivalent (%d occurrences): %s" % (n_, note_)})
+        for rx_, rep_, note_ in opts.get("rewrites_rx_opt", []):
+            body, n_ = re.subn(rx_, rep_, body, flags=re.S)
+            if n_:
+                item.rewrites.append({"old": "regex " + rx_, "new": rep_, "note": "std-equivalent (%d occurrences): %s" % (n_, note_)})
         for recv_, inv_ in opts.get("filter_partitions", []):
             body = desugar_filter_partition(body, recv_, inv_, item)
         for recv_, ty_, inv_ in opts.get("map_collects", []):
@@ -1123,6 +1138,36 @@ class Gen:
                 self.emit(s.text[a:im["open"] + tm.end()])
         # expect //@method blocks until //@end
         n = len(lines)
+        each = {"sigsub": [], "rewrites_rx_opt": []}
+        autostub = None
+        defined = set()
+        impl_start = len(self.out)
+
+        def emit_method(mname, mkv, flags, contract, extra):
+            loc = s.find_fn(mname, im["open"] + 1, im["close"])
+            if not contract.strip() and each.get("ensures"):
+                contract = "    ensures " + each["ensures"] + ","
+            extra = dict(extra)
+            extra["sigsub"] = list(extra.get("sigsub", [])) + each["sigsub"]
+            if each.get("loopframe"):
+                extra["loopframe"] = each["loopframe"]
+            extra["rewrites_rx_opt"] = each["rewrites_rx_opt"]
+            defined.add(mname)
+            ident = "%s::%s" % (kv.get("id", norm_ws(header)), mname)
+            item = self.new_item(ident, "method", mkv if mkv.get("props") else {**mkv, **({"props": kv["props"]} if kv.get("props") else {})}, rel, s, loc["sig_start"], loc["body_close"])
+            opts = dict(mkv)
+            opts.update(extra)
+            for f in flags:
+                opts[f] = True
+            if is_trait:
+                opts["in_trait"] = True
+            if self.force_trusted:
+                opts["trusted"] = True
+                item.elsewhere = True
+            self.emit("// ---- method %s from %s:%d" % (mname, rel, s.line_of(loc["sig_start"])))
+            txt = render_fn(s, loc, self.vac(contract, ident), opts, item)
+            item.gen_lines = self.emit(txt)
+
         while i < n:
             st = lines[i].strip()
             if not st:
@@ -1144,27 +1189,46 @@ class Gen:
                 self.emit(s.text[im["open"] + cm.start():im["open"] + cm.end()])
                 i += 1
                 continue
+            if toks2[0] == "each":
+                # impl-level defaults applied to every following method of this impl:
+                #   //@each sigsub <a> <b> | //@each loopframe <expr> | //@each rewrite_regex <rx> <rep> <note> (where it matches)
+                #   //@each ensures <clause text>  (contract of a method that states none)
+                if toks2[1] == "sigsub":
+                    each["sigsub"].append((toks2[2], toks2[3]))
+                elif toks2[1] == "loopframe":
+                    each["loopframe"] = " ".join(toks2[2:])
+                elif toks2[1] == "rewrite_regex":
+                    each["rewrites_rx_opt"].append((toks2[2], toks2[3], " ".join(toks2[4:])))
+                elif toks2[1] == "ensures":
+                    each["ensures"] = " ".join(toks2[2:])
+                else:
+                    raise SystemExit("unknown //@each %s" % toks2[1])
+                i += 1
+                continue
+            if toks2[0] == "autostub":
+                # //@autostub <ensures clause>: every `self.visit_*(x)` call to a method this impl does not extract gets a
+                # generic external_body stand-in with that contract (ASSUMED; listed in the notes)
+                autostub = " ".join(toks2[1:])
+                i += 1
+                continue
+            if toks2[0] == "methods":
+                # //@methods a b c: methods that take the impl-level default contract and options
+                for m_ in toks2[1:]:
+                    emit_method(m_, {}, set(), "", {})
+                i += 1
+                continue
             if toks2[0] != "method":
                 raise SystemExit("expected //@method or //@end in impl block, got %r" % st)
             mpos, mkv = parse_kv(toks2[1:])
-            mname = mpos[0]
-            flags = set(mpos[1:])
-            loc = s.find_fn(mname, im["open"] + 1, im["close"])
-            contract, extra, i, term = self.collect(i + 1, lines, terminators=("end", "method"))
-            ident = "%s::%s" % (kv.get("id", norm_ws(header)), mname)
-            item = self.new_item(ident, "method", mkv if mkv.get("props") else {**mkv, **({"props": kv["props"]} if kv.get("props") else {})}, rel, s, loc["sig_start"], loc["body_close"])
-            opts = dict(mkv)
-            opts.update(extra)
-            for f in flags:
-                opts[f] = True
-            if is_trait:
-                opts["in_trait"] = True
-            if self.force_trusted:
-                opts["trusted"] = True
-                item.elsewhere = True
-            self.emit("// ---- method %s from %s:%d" % (mname, rel, s.line_of(loc["sig_start"])))
-            txt = render_fn(s, loc, self.vac(contract, ident), opts, item)
-            item.gen_lines = self.emit(txt)
+            contract, extra, i, term = self.collect(i + 1, lines, terminators=("end", "method", "methods", "each", "autostub"))
+            emit_method(mpos[0], mkv, set(mpos[1:]), contract, extra)
+        if autostub:
+            body_txt = mask("\n".join(self.out[impl_start:]))
+            called = sorted(set(re.findall(r"\bself\s*\.\s*(visit_\w+)\s*\(", body_txt)) - defined)
+            for nm in called:
+                self.emit("    #[verifier::external_body]\n    pub fn %s<VerifT: ?Sized>(&mut self, node: &VerifT) -> (r: Result<(), Diagnostic>)\n        ensures %s,\n    { unimplemented!() }" % (nm, autostub))
+            if called:
+                self.notes.append("ASSUMED stand-ins (default trait methods / overrides not extracted) in impl %s: %s" % (newh, ", ".join(called)))
         self.emit("}")
         return i
 
